@@ -110,6 +110,15 @@ class SymSeq:
     @staticmethod
     def _pyvc_binop(interp, op, a, b):
         if op is operator.add and isinstance(a, (SymSeq, tuple, list)) and isinstance(b, (SymSeq, tuple, list)):
+            if isinstance(a, Grid) or isinstance(b, Grid):
+                ga, gb_ = _as_gridpart(a), _as_gridpart(b)
+                if ga is not None and gb_ is not None:
+                    if ga.concrete_len() and ga.length() == 0:
+                        return b
+                    if gb_.concrete_len() and gb_.length() == 0:
+                        return a
+                    parts = (ga.parts if isinstance(ga, ConcatGrid) else [ga]) + (gb_.parts if isinstance(gb_, ConcatGrid) else [gb_])
+                    return ConcatGrid(parts)
             return ConcatSeq(_as_seq(a), _as_seq(b))
         if op is operator.mul:
             seq, k = (a, b) if isinstance(a, SymSeq) else (b, a)
@@ -145,6 +154,14 @@ class SymSeq:
 
     def prefix(self, interp, k):
         raise Unsupported(f"prefix sums of {type(self).__name__}")
+
+
+def _as_gridpart(v):
+    if isinstance(v, Grid):
+        return v
+    if isinstance(v, (tuple, list)) and all(sym._numlike(x) for x in v):
+        return _TupleGrid(tuple(v))
+    return None
 
 
 def _as_seq(v):
@@ -304,6 +321,42 @@ class SymRange(SymSeq):
         return (item >= self.lo) & (item < self.hi)
 
 
+class ProductSeq(SymSeq):
+    """itertools.product(*seqs) where some factor has symbolic length. The element at (symbolic) position k is
+    the tuple of the factors' elements at per-factor indexes decode_j(k) with 0 <= decode_j(k) < len_j; the
+    row-major bijection itself is not modelled (the element *set* is exact, order and position are abstract),
+    so only element-wise (for-all) reasoning is supported."""
+
+    def __init__(self, seqs):
+        self.seqs = list(seqs)
+        self._cache = {}
+        self.lazy = True
+
+    def length(self):
+        n = 1
+        for s in self.seqs:
+            n = n * s.length()
+        return n
+
+    def get(self, interp, k):
+        key = tz(k).get_id() if not isinstance(k, int) else ("c", k)
+        if key in self._cache:
+            return self._cache[key]
+        ctx = interp.ctx
+        out = []
+        for s in self.seqs:
+            ln = s.length()
+            if isinstance(ln, int) and ln == 1:
+                out.append(s.get(interp, 0))
+                continue
+            idx = ctx.fresh_int("pidx", lo=0)
+            ctx.assume(idx < ln)
+            out.append(s.get(interp, idx))
+        v = tuple(out)
+        self._cache[key] = v
+        return v
+
+
 class ZipSeq(SymSeq):
     def __init__(self, seqs, n):
         self.seqs, self.n = seqs, n
@@ -391,10 +444,12 @@ class ChunkSeq(Grid):
                 self.nb = _ite(tz(n) == 0, 1, n)
             else:
                 ctx = sym.cur()
-                nb = ctx.fresh_int("nb", lo=1)
+                nb = ctx.fresh_int("nb")
                 nz, cz, bz = tz(n), tz(c), nb.t
-                ctx.assume(z3.Implies(nz == 0, bz == 1))
-                ctx.assume(z3.Implies(nz > 0, z3.And((bz - 1) * cz < nz, nz <= bz * cz)))
+                # definitional (exactly one such nb exists whenever n >= 0 and c >= 1): kept across scopes
+                ctx.assume_def(z3.Implies(z3.And(nz >= 0, cz >= 1), z3.And(
+                    bz >= 1, z3.Implies(nz == 0, bz == 1),
+                    z3.Implies(nz > 0, z3.And((bz - 1) * cz < nz, nz <= bz * cz)))))
                 self.nb = nb
                 _NB_CACHE_put(n, c, nb)
         return self.nb
@@ -481,6 +536,93 @@ class RepGrid(Grid):
             zero = z3.And(tz(n) == 0, tz(self.k) == 1, tz(self.v) == 0)
             return wrap(z3.And(tz(self.k) == tz(ln), z3.Or(zero, z3.And(tz(n) > 0, allc, tz(self.v) > 0))))
         raise Unsupported("grid equality")
+
+
+class _TupleGrid(Grid):
+    """A concrete-length tuple of (possibly symbolic) block sizes."""
+
+    def __init__(self, items):
+        self.items = tuple(items)
+
+    def length(self):
+        return len(self.items)
+
+    def concrete_len(self):
+        return True
+
+    def get(self, interp, k):
+        if isinstance(k, int):
+            return self.items[k]
+        return interp.pick(self.items, k)
+
+    def prefix(self, interp, k):
+        acc = [0]
+        for x in self.items:
+            acc.append(acc[-1] + x)
+        if isinstance(k, int):
+            return acc[k]
+        return interp.pick(tuple(acc), k)
+
+    def total(self, interp):
+        t = 0
+        for x in self.items:
+            t = t + x
+        return t
+
+    def maxv(self, interp):
+        if not self.items:
+            raise PyExc(ValueError, ("max() arg is an empty sequence",))
+        m = self.items[0]
+        for x in self.items[1:]:
+            m = x if interp.truth(x > m) else m
+        return m
+
+
+class ConcatGrid(Grid):
+    """Concatenation of block-size sequences, e.g. (s,)*(nb//s) + ((nb%s,) if nb%s else ())."""
+
+    def __init__(self, parts):
+        self.parts = list(parts)
+
+    def length(self):
+        n = 0
+        for p in self.parts:
+            n = n + p.length()
+        return n
+
+    def get(self, interp, k):
+        off = 0
+        for i, p in enumerate(self.parts):
+            ln = p.length()
+            if i == len(self.parts) - 1 or interp.truth(k < off + ln):
+                return p.get(interp, k - off)
+            off = off + ln
+
+    def prefix(self, interp, k):
+        off, acc = 0, 0
+        for i, p in enumerate(self.parts):
+            ln = p.length()
+            if i == len(self.parts) - 1 or interp.truth(k <= off + ln):
+                return acc + p.prefix(interp, k - off)
+            off = off + ln
+            acc = acc + p.total(interp)
+
+    def total(self, interp):
+        t = 0
+        for p in self.parts:
+            t = t + p.total(interp)
+        return t
+
+    def maxv(self, interp):
+        m = None
+        for p in self.parts:
+            if interp.truth(p.length() == 0):
+                continue
+            v = p.maxv(interp)
+            m = v if m is None else (v if interp.truth(v > m) else m)
+        if m is None:
+            raise PyExc(ValueError, ("max() arg is an empty sequence",))
+        return m
 
 
 class RepSeq:
